@@ -309,32 +309,49 @@ func init() {
 	})
 	reg("encoding/json.freeScanner", func(x *Exec, fr *frame, args []value) value { return nil })
 
-	// sort.Slice family: reflection-based swapper replaced by an insertion sort over the
-	// slice cells (what the real pdqsort does for n <= 12), calling the real less closure.
-	sortSlice := func(x *Exec, fr *frame, args []value) value {
-		iv := args[0].(iface)
-		sl, ok := iv.v.(sliceVal)
-		if !ok {
-			panic(unsupported{"sort.Slice of non-slice"})
-		}
-		n := len(sl.a)
-		if n > 12 {
-			panic(unsupported{"sort.Slice with more than 12 elements"})
-		}
-		less := args[1]
-		for i := 1; i < n; i++ {
-			for j := i; j > 0; j-- {
-				r := x.call(fr, token.NoPos, less, []value{x.tb.Int(int64(j)), x.tb.Int(int64(j - 1))}).(*Term)
-				if !x.branch(r) {
-					break
-				}
-				sl.a[j], sl.a[j-1] = sl.a[j-1], sl.a[j]
+	// sort.Slice family: only the reflection part is modelled (reflectlite.Swapper -> a swapper over
+	// the slice cells, reflectlite.ValueOf(x).Len() -> the concrete length); the sorting itself is the
+	// real sort.pdqsort_func / sort.stable_func SSA driving the real less closure.
+	sortSliceWith := func(stable bool) func(x *Exec, fr *frame, args []value) value {
+		return func(x *Exec, fr *frame, args []value) value {
+			iv := args[0].(iface)
+			sl, ok := iv.v.(sliceVal)
+			if !ok {
+				panic(unsupported{"sort.Slice of non-slice"})
 			}
+			n := len(sl.a)
+			less := args[1]
+			idx := func(v value) int {
+				t := v.(*Term)
+				if t.op != OConst {
+					panic(unsupported{"sort.Slice swapper with a symbolic index"})
+				}
+				return int(int64(t.u))
+			}
+			swap := nativeFn(func(x *Exec, fr *frame, a []value) value {
+				i, j := idx(a[0]), idx(a[1])
+				if i < 0 || j < 0 || i >= n || j >= n {
+					x.rtPanic("reflect: slice index out of range")
+				}
+				sl.a[i], sl.a[j] = sl.a[j], sl.a[i]
+				return nil
+			})
+			pkg := x.P.prog.ImportedPackage("sort")
+			ls := structure{less, value(swap)}
+			if stable {
+				x.callSSA(fr, token.NoPos, pkg.Func("stable_func"), []value{ls, x.tb.Int(int64(n))}, nil)
+			} else {
+				limit := 0
+				for m := n; m > 0; m >>= 1 {
+					limit++
+				}
+				x.callSSA(fr, token.NoPos, pkg.Func("pdqsort_func"), []value{ls, x.tb.Int(0), x.tb.Int(int64(n)), x.tb.Int(int64(limit))}, nil)
+			}
+			return nil
 		}
-		return nil
 	}
-	reg("sort.Slice", sortSlice)
-	reg("sort.SliceStable", sortSlice)
+	reg("sort.Slice", sortSliceWith(false))
+	reg("sort.SliceStable", sortSliceWith(true))
 
 	registerNumberStubs(reg)
 	registerSyncStubs(reg)
